@@ -14,7 +14,7 @@ ASSUMPTIONS = [
 ]
 BOUNDS = {
     "quick": "pre-states: <=2-subsets of 3 keys x {1B,33B,mixed} + 3 special 3-key sets (19 sets); batch of <=2 ops over 3 keys x {delete, 1B, 33B}; exits: normal, exception after op j (every j), commit write f in 0..3 failing; prune in {F,T}",
-    "thorough": "pre-states over 5 keys; batch of <=3 ops over 5 keys x {delete,1B,33B,29B}; same exits",
+    "thorough": "same 19 pre-states and pools; batch of <=3 ops; commit write f in 0..5 failing",
 }
 OUTSIDE = "batches longer than the bound; exceptions raised by the database on reads; nested batches; use of the outer trie while the batch is open"
 NONTRIVIAL_RULE = "committed batch that changed the contents, or any exceptional exit"
